@@ -1744,17 +1744,26 @@ def _unparenthesize_grouping(self: fst.FST, shared: bool | None = True, *, star_
         self._put_src(None, pln, pcol, ln, col, False)
 
     else:  # in all other case we need to make sure par is not separating us from an alphanumeric on either side, and if so then just replace that par with a space
+        parent = self.parent
         direct = False  # whether we wrote directly to the lines, in which case nothing was offset or touched
 
         if pend_col >= 2 and _re_par_close_alnums.match(l := lines[pend_ln], pend_col - 2):
             lines[pend_ln] = bistr(l[:pend_col - 1] + ' ' + l[pend_col:])
             direct = True
+
+            if parent:  # the closing par is now a space, parents which ended at it now end where self ends
+                parent._set_end_pos(end_ln + 1, lines[end_ln].c2b(end_col), pend_ln + 1, l.c2b(pend_col))
+
         else:
             self._put_src(None, end_ln, end_col, pend_ln, pend_col, True, self)
 
         if pcol and _re_par_open_alnums.match(l := lines[pln], pcol - 1):
             lines[pln] = bistr(l[:pcol] + ' ' + l[pcol + 1:])
             direct = True
+
+            if parent:  # the opening par is now a space, parents which started at it now start where self starts
+                parent._set_start_pos(ln + 1, lines[ln].c2b(col), pln + 1, l.c2b(pcol))
+
         else:
             self._put_src(None, pln, pcol, ln, col, False)
 
